@@ -207,7 +207,7 @@ Qed.
 
 Definition conn_live (w : world) (d : dstate) : Prop :=
   mem_z (d_session d) (t_sessions (w_t w)) = true
-  /\ exists otid c, d_cid d = Some (le_enc 4 otid) /\ in32 otid /\ In c (t_conns (w_t w))
+  /\ exists otid c, d_cid d = Some (le_enc 4 otid) /\ in32z otid /\ In c (t_conns (w_t w))
                     /\ c_ot_id c = otid /\ c_session c = d_session d.
 
 Definition all_bytes (l : list bytes) : Prop := Forall (fun b => bytes_ok b = true) l.
@@ -315,7 +315,7 @@ Lemma ud_frame_ok_live (w : world) d sq msg fr :
   ud_frame (d_session d) (d_cid d) sq msg = Ok fr -> conn_live w d -> unitdata_ok (w_t w) fr.
 Proof.
   intros Hf (Hm & otid & c & Hcid & Hid & Hin & Hot & Hses) f Hp Hcmd.
-  rewrite Hcid in Hf. unfold in32 in Hid.
+  rewrite Hcid in Hf. unfold in32z in Hid.
   assert (f = ud_parsed (d_session d) otid sq msg) as -> by (eapply ud_frame_parse; [exact Hf | lia | exact Hp]).
   cbn [ud_parsed f_session f_body]. split; [exact Hm |]. do 4 eexists. exists c. split; [reflexivity |]. auto.
 Qed.
